@@ -2,10 +2,16 @@
    executable model instantiated with the GENERATED tables and flags. *)
 From LV Require Import Base FS FSFacts LayerEnv LayerEnvFacts LayerShared LayerEnvFS.
 From LV.Checks Require Import C03Hold.
-From LVGen Require GenLayerEnv.
+From LV Require Import ImpPrims ImpFacts.
+From LVGen Require GenLayerEnv GenLayerEnvImp.
 
 Definition g_write (e : layer_env) (dir : path) : M unit :=
   write_to_layer_dir GenLayerEnv.beh_order GenLayerEnv.writer_suffix e dir.
+(* the writer as regenerated statement by statement from layer_env.rs *)
+Definition g_write_regenerated (e : layer_env) (dir : path) : M unit :=
+  let en := entries_of GenLayerEnv.beh_order in
+  GenLayerEnvImp.gen_write_to_layer_dir (en (le_all e)) (en (le_build e)) (en (le_launch e))
+    (map (fun pd => (fst pd, en (snd pd))) (le_process e)) dir.
 Definition g_read (dir : path) : M layer_env :=
   read_from_layer_dir GenLayerEnv.reader_suffix GenLayerEnv.reader_no_ext GenLayerEnv.layer_path_specs
                       GenLayerEnv.path_list_separator GenLayerEnv.reads_process dir.
@@ -24,8 +30,10 @@ Definition step_agrees (dir : path) (pre : fs) (st : step * step_res * fs) : boo
   let '(stp, res, post) := st in
   match stp with
   | SWrite l =>
-      let '(s', r) := g_write (le_of_inserts l) dir pre in
-      fs_eqb s' post && match r, res with Ok _, SOk _ => true | Err m, SErr o => err_agrees o m | _, _ => false end
+      (let '(s', r) := g_write (le_of_inserts l) dir pre in
+       fs_eqb s' post && match r, res with Ok _, SOk _ => true | Err m, SErr o => err_agrees o m | _, _ => false end) &&
+      (let '(s', r) := g_write_regenerated (le_of_inserts l) dir pre in
+       fs_eqb s' post && match r, res with Ok _, SOk _ => true | Err m, SErr o => err_agrees o m | _, _ => false end)
   | SRead probes =>
       let '(s', r) := g_read dir pre in
       fs_eqb s' post && match r, res with
